@@ -164,13 +164,21 @@ def schedule_level(ctx):
             msrc = ("@move{dec}\ndef main():\n    f = schedule.device_fn(k, [0, 1], [0])\n    r = schedule.reverse(f)\n"
                     "    rr = schedule.reverse(r)\n    rrr = schedule.reverse(rr)\n"
                     f"    f({pos})\n    r({kw})\n    rr({pos})\n    rrr({kw})\n    schedule.reverse(schedule.device_fn(k, [0, 1], [0]))({pos})\n")
-            routes = [("fold(compile-time spec)", "(arch_spec=S)", False), ("stamped spec, plain interpreter", "(arch_spec=S, fold=False)", True),
-                      ("run-time spec interpreter", "", False), ("run-time spec, fold=False", "(fold=False)", False)]
+            # the same calls with the operands passed as kernel parameters (nothing can be folded: evaluated at run time)
+            kwv = ", ".join(f"{nm}={nm}" for nm in reversed(names))
+            psrc = ("@move{dec}\ndef main" + sig + ":\n    f = schedule.device_fn(k, [0, 1], [0])\n    r = schedule.reverse(f)\n"
+                    "    rr = schedule.reverse(r)\n    rrr = schedule.reverse(rr)\n"
+                    f"    f({', '.join(names)})\n    r({kwv})\n    rr({', '.join(names)})\n    rrr({kwv})\n    schedule.reverse(schedule.device_fn(k, [0, 1], [0]))({', '.join(names)})\n")
+            routes = [("fold(compile-time spec)", "(arch_spec=S)", False, False), ("stamped spec, plain interpreter", "(arch_spec=S, fold=False)", True, False),
+                      ("run-time spec interpreter", "", False, False), ("run-time spec, fold=False", "(fold=False)", False, False)]
+            if names:
+                routes += [("stamped spec, plain interpreter, run-time operands", "(arch_spec=S)", True, True),
+                           ("run-time spec interpreter, run-time operands", "", False, True)]
             texts = {}
-            for rname, dec, plain in routes:
+            for rname, dec, plain, byparam in routes:
                 try:
-                    m = kernels.define(msrc.format(dec=dec), k=ns["k"], S=S)["main"]
-                    st, evs, extra = events.run_events(m, (), S, plain=plain)
+                    m = kernels.define((psrc if byparam else msrc).format(dec=dec), k=ns["k"], S=S)["main"]
+                    st, evs, extra = events.run_events(m, tuple(args) if byparam else (), S, plain=plain)
                 except Exception as e:
                     st, evs, extra = "err", [], f"definition failed: {type(e).__name__}: {e}"
                 n += 1
